@@ -201,6 +201,10 @@ fn validate_struct_attrs<'a, I: Iterator<Item = &'a TraitAttrCore>>(attrs: I, fa
         if !fallible && attr.err_ty.is_some() {
             errors.insert("Error type should not be specified for infallible instruction.".into(), attr.err_ty.as_ref().unwrap().span);
         }
+
+        if into_existing && attr.update.is_some() && attr.quick_return.is_none() {
+            errors.insert(format!("Struct update syntax ('..') does not apply to an into_existing conversion: the members of the existing {} that no instruction mentions stay as they are.", attr.ty.path_str), attr.ty.span);
+        }
     }
 }
 
